@@ -4,7 +4,13 @@
 
 package cgf
 
-import "sync"
+import (
+	"sync"
+
+	"github.com/free5gc/chf/pkg/factory"
+)
+
+var _ = factory.ChfConfig
 
 // verif_held: the mutex is held by the current request (interpreted by govc)
 func verif_held(mu *sync.Mutex) bool { return true }
@@ -40,3 +46,19 @@ func SpecReady() bool {
 //@   assert "stor_err := cgf.conn.Stor(": [C09] verif_held(&cgf.connMutex)
 //@   assume "for _, entry := range entries": forall k int :: 0 <= k && k < len(entries) ==> entries[k] != nil
 //@   loop 0: invariant 0 <= ITER && ITER <= len(entries)
+
+// ---- server start (C20) -----------------------------------------------------------------------------
+// The CGF start-up reads the cgf and sbi sections, both required by validation; the FTP server libraries
+// are opaque dependencies.
+//@ func OpenServer [C20]
+//@   go-bodies
+//@   requires factory.SpecValidated(factory.ChfConfig) && wg != nil
+
+// Serve (started by OpenServer with `go`): logs in to its own FTP server, then serves; it needs what
+// OpenServer has just set up. Checked as a function of its own; OpenServer proves the precondition at the
+// go statement.
+//@ func (*Cgf).Serve [C20]
+//@   requires f != nil && f.ftpServer != nil && f.driver != nil && wg != nil
+//@   requires cgf != nil && len(cgf.ftpConfig.Accesses) > 0 && !verif_held(&cgf.connMutex)
+//@   modifies field(cgf, conn)
+//@   loop 0: unroll 3
